@@ -160,6 +160,7 @@ type DocGen struct {
 	Prefixes []string
 	Texts    []string
 	Langs    []string
+	Stress   bool // add one element with the large shapes of stressElem
 }
 
 func NewDocGen(r *Rng, maxNodes, maxDepth int) *DocGen {
@@ -249,6 +250,36 @@ func (g *DocGen) elem(depth int) *Node {
 	return n
 }
 
+// stressElem: shapes past the small sizes that optimised code paths like to special-case - many namespace nodes and
+// attributes on one element, more than 64 like-named children with non-integer values, a long nesting chain
+func (g *DocGen) stressElem() *Node {
+	n := &Node{Kind: KElem, Name: QName{"", "big"}}
+	n.NS = append(n.NS, NSDecl{"xml", xmlNS})
+	for i, k := 0, 5+g.R.Intn(5); i < k; i++ {
+		n.NS = append(n.NS, NSDecl{fmt.Sprintf("n%d", i), fmt.Sprintf("urn:n%d", i)})
+	}
+	for i, k := 0, 5+g.R.Intn(8); i < k; i++ {
+		n.Attrs = append(n.Attrs, Attr{QName{"", fmt.Sprintf("k%d", i)}, g.text()})
+	}
+	for i, k := 0, 66+g.R.Intn(6); i < k; i++ {
+		n.Kids = append(n.Kids, &Node{Kind: KElem, Name: QName{"", "item"},
+			Kids: []*Node{{Kind: KText, Value: pick(g.R, []string{"0.1", "0.1", "0.2", "1", "2.5", "10", "0.3"})}}})
+	}
+	cur := n
+	for i, k := 0, 18+g.R.Intn(6); i < k; i++ {
+		kid := &Node{Kind: KElem, Name: QName{"", pick(g.R, []string{"d", "a", "b"})}}
+		if i == 3 {
+			kid.NS = []NSDecl{{"xml", xmlNS}, {"p", "urn:u1"}}
+			kid.Attrs = []Attr{{QName{"", "id"}, "3"}}
+		}
+		cur.Kids = append(cur.Kids, kid)
+		cur = kid
+	}
+	cur.Kids = append(cur.Kids, &Node{Kind: KText, Value: "deep"})
+	g.count += 120
+	return n
+}
+
 // Top generates the children of the root: optional prolog comments/PIs/text,
 // one or more elements (a scripted Parser is not bound by XML well-formedness),
 // optional epilog.
@@ -259,6 +290,9 @@ func (g *DocGen) Top() []*Node {
 		kids = append(kids, g.leaf())
 	}
 	kids = append(kids, g.elem(1))
+	if g.Stress {
+		kids = append(kids, g.stressElem())
+	}
 	for g.R.Chance(1, 4) && g.count < g.MaxNodes {
 		if g.R.Chance(1, 2) {
 			kids = append(kids, g.elem(1))
